@@ -64,7 +64,8 @@ func H_C01_roundtrip() {
 // years with 5-9 digits need the limit raised (or disabled)
 //
 //verif:harness C01 quick yd=5..5
-//verif:harness C01 thorough yd=6..9
+//verif:harness C01 quick yd=9..9
+//verif:harness C01 thorough yd=6..8
 func H_C01_longYear(yd int) {
 	lo := 10000
 	for i := 5; i < yd; i++ {
